@@ -41,7 +41,8 @@ TRUSTED = [
     "(all grids up to 4×5 and 5×4 in the thorough tier), not proved",
     "even–odd point-in-polygon is modelled and compared, its geometric correctness for arbitrary vertex lists is not "
     "proved; tied by the shoelace-area check",
-    "create_stog is exercised on the implementation only (its model belongs to C06)",
+    "recognition by create_stog is proved against the C06 model (FV/Model/Stog.lean, whose fidelity is C06's "
+    "correspondence check) and exercised here on the implementation with the loader's ε",
     "harness (Python) and compiled Lean driver: parsing, canonicalisation, comparison, brute-force oracle",
 ]
 
@@ -624,6 +625,23 @@ def spec_decomp(ctx: Ctx, inp, vs, rects, mode: str) -> None:
     if [first.center.x, first.center.y, first.shape.w, first.shape.h] != list(rects[0]):
         ctx.spec_fail("rects_recognised:trunk_first", inp, {"first": [first.center.x, first.center.y, first.shape.w, first.shape.h],
                                                             "strop_trunk": rects[0]}, size=len(vs))
+        return
+    # theorem `rects_recognised`: the list keeps its order and every branch carries the side it lies on
+    # (north = larger y, i.e. the rows above the trunk; east = larger x)
+    got = [[r.center.x, r.center.y, r.shape.w, r.shape.h] for r in m.rectangles]
+    if got != [list(r) for r in rects]:
+        ctx.spec_fail("rects_recognised:order_kept", inp, {"after": got, "before": rects}, size=len(vs))
+        return
+    tx, ty, tw, th = (Fraction(v) for v in rects[0])
+    expect = ["TRUNK"]
+    for r in rects[1:]:
+        cx, cy = Fraction(r[0]), Fraction(r[1])
+        if abs(cx - tx) * 2 < tw:
+            expect.append("NORTH" if cy > ty else "SOUTH")
+        else:
+            expect.append("EAST" if cx > tx else "WEST")
+    if locs != expect:
+        ctx.spec_fail("rects_recognised:roles", inp, {"locations": locs, "expected": expect}, size=len(vs))
 
 
 # ------------------------------------------------------------------ cases
